@@ -339,6 +339,8 @@ def finding_matches(k, prop, res, viol):
         return False
     if 'permuted' in k and bool(res.get('permuted')) != bool(k['permuted']):
         return False
+    if 'config_contains' in k and k['config_contains'] not in (res.get('config') or ''):
+        return False
     return True
 
 
